@@ -79,8 +79,22 @@ def validate_traces(chk, prop, cfgs):
     return events
 
 
+def objseq_part(chk, cases):
+    chk.add_cases(cases)
+    events = execute_cases(L.objseq_execute, cases, repo=chk.repo)
+    for e in events[:2]:
+        chk.sample(e, limit=6)
+    by_id = {e.get("id"): e for e in events}
+    for rid, clause, _ in chk.validate("DriverTrace", events, cfg="DriverTrace_C07.cfg"):
+        rec = chk.violation(rid, clause, event=by_id.get(rid))
+        rec["alg"] = by_id.get(rid, {}).get("kind")
+    chk.notes["objective_sequences"] = len(events)
+
+
 def run_driver_check(chk, prop, opts):
     design_runs(chk, prop)
+    if prop == "C07" and "only" not in opts:
+        objseq_part(chk, L.objseq_cases(chk.tier, chk.seed))
     cfgs = configs_for(chk, prop)
     if "only" in opts:
         cfgs = [c for c in cfgs if c["id"].startswith(opts["only"])]
@@ -95,5 +109,7 @@ def run_driver_check(chk, prop, opts):
 
 def replay_driver_check(chk, prop, rec, opts):
     cfg = rec["case"]
+    if "kind" in cfg and "alg" not in cfg:
+        return objseq_part(chk, [cfg])
     chk.add_cases([cfg])
     validate_traces(chk, prop, [cfg])
